@@ -3,7 +3,8 @@
 Ops (driver side in lean/NetaddrVerif/Driver/C01.lean):
   platform (never call netaddr):  aton S · pton4 S · pton6 S · ntop6 V
   ip_parse be S ver flags · ip_print be F V dialect · valid4 be S flags · valid6 be S ·
-  fb_pton F S · fb_ntop F V
+  fb_pton F S · fb_ntop F V · ip_repr be F V (repr + parse of its quoted part) ·
+  zf_rewrite S (platform-style: the ZEROFILL rewrite '.'.join('%d' % int(p) for p in S.split('.')) against CPython)
 be = pl (netaddr as imported here: platform socket functions) | fb (netaddr imported in a
 dedicated subprocess with sys.platform='win32' and socket.has_ipv6=False, so that
 strategy.ipv4/ipv6 bind netaddr.fbsocket; /repo is not touched)."""
@@ -24,7 +25,10 @@ RULE = ('values: all 256 zero/non-zero patterns of the eight hextets x several f
         'version in {None,4,6} x flags in {0,INET_PTON,ZEROFILL} on both back-ends; strings: reference-printer '
         'outputs, their edit-distance<=1..3 neighbours over the address alphabet, structured near-misses (empty part, '
         'extra part, leading zero, sign, whitespace, underscore, 0x, over-long / out-of-range numerals), BSD '
-        'shorthands (1-4 parts, dec/oct/hex), zero-padded octets, random strings; platform ops compare the modelled '
+        'shorthands (1-4 parts, dec/oct/hex), zero-padded octets, ZEROFILL texts (1-5 parts in any spelling int() '
+        'tolerates or nearly tolerates: sign, whitespace, underscores, padding) with flags ZEROFILL and '
+        'INET_PTON|ZEROFILL, texts with a \'/\' behind whitespace (valid_ipv4 vs constructor), repr of every value class, '
+        'random strings; platform ops compare the modelled '
         'glibc functions with socket.* directly. non-trivial = distinct case whose implementation output is not an error')
 
 INET_PTON, ZEROFILL = 1, 2
@@ -99,6 +103,18 @@ def run_real(netaddr, a):
             return 'T' if netaddr.valid_ipv6(s) else 'F'
         except Exception as e:
             return '!' + _errname(netaddr, e)
+    if op == 'repr':
+        _, be, ver, v = a
+        r = repr(netaddr.IPAddress(v, ver))
+        # eval-free: plain frame removal, then the constructor on the quoted part
+        if not (r.startswith("IPAddress('") and r.endswith("')")):
+            return _hexs(r) + ' !unquote'
+        q = r[len("IPAddress('"):-2]
+        try:
+            ip = netaddr.IPAddress(q)
+            return _hexs(r) + ' %d %d' % (ip.version, int(ip))
+        except Exception as e:
+            return _hexs(r) + ' !' + _errname(netaddr, e)
     if op == 'rt':
         _, be, ver, v, d, pver, flags = a
         s = _fmt(netaddr, ver, v, d)
@@ -217,6 +233,14 @@ def ref_pyint10(s):
     if any(c not in DEC for c in u):
         return None
     return sign * int(u)
+
+
+def ref_zf_rewrite(s):
+    """the ZEROFILL rewrite, from the reference int(): None = some part does not convert"""
+    ps = [ref_pyint10(p) for p in s.split('.')]
+    if any(p is None for p in ps):
+        return None
+    return '.'.join(('-' if p < 0 else '') + str(abs(p)) for p in ps)
 
 
 def ref_aton(s, junk=True):
@@ -500,6 +524,37 @@ def shorthand(rng):
     return '.'.join(c_literal(rng, p) for p in parts + [last])
 
 
+ZF_ODD = ['', '_', '+', '-', '0x1', '1 2', '1__2', '--1', '+-1', '1e2', '1_', '_1', ' ', '0b1', '1/2', 'a']
+
+
+def zf_part(rng, v):
+    """a spelling of v that int() accepts (padding zeros, '_' between digits, sign, surrounding whitespace),
+    now and then one it refuses"""
+    body = '%d' % v
+    if rng.random() < 0.3:
+        body = '0' * rng.randrange(1, 6) + body
+    if rng.random() < 0.25 and len(body) > 1:
+        k = rng.randrange(1, len(body))
+        body = body[:k] + '_' + body[k:]
+    if rng.random() < 0.25:
+        body = rng.choice('++-') + body
+    if rng.random() < 0.2:
+        body = rng.choice(WS) * rng.randrange(1, 3) + body
+    if rng.random() < 0.2:
+        body = body + rng.choice(WS)
+    if rng.random() < 0.06:
+        body = rng.choice(ZF_ODD)
+    return body
+
+
+def zf_string(rng):
+    n = rng.choice([1, 2, 3, 4, 4, 4, 5])
+    parts = [rng.choice([0, 1, 8, 9, 10, 255, 256, rng.randrange(256)]) for _ in range(n - 1)]
+    lim = 1 << (8 * max(5 - n, 1))
+    last = rng.choice([0, 1, lim - 1, lim, lim + 1, rng.randrange(lim), 255, 256])
+    return '.'.join(zf_part(rng, p) for p in parts + [last])
+
+
 NEAR4 = ['', '.', '1', '1.2', '1.2.3', '1.2.3.', '.1.2.3', '1..2.3', '1.2.3.4.5', '1.2.3.4.', '01.2.3.4', '1.2.3.04',
          '001.002.003.004', '010.020.030.040', '1.2.3.256', '1.2.3.255', '256.1.1.1', '1.2.65536', '1.2.65535',
          '1.16777216', '1.16777215', '4294967296', '4294967295', '0', '00', '0x', '0x.1.1.1', '1.2.3.0x', '08.1.1.1',
@@ -508,7 +563,14 @@ NEAR4 = ['', '.', '1', '1.2', '1.2.3', '1.2.3.', '.1.2.3', '1..2.3', '1.2.3.4.5'
          '1.2.3.4/', '/', '0377.0377.0377.0377', '0400.1.1.1', '0xff.0xff.0xff.0xff', '0x100.1.1.1', '0xffffffff',
          '0x100000000', '037777777777', '040000000000', '1.2.3.00', '1.2.3.000', '1.2.3.0000', '0000.0.0.0',
          '1.2.3.0255', '000000001.2.3.4', '1.2.3.4.', '1,2,3,4', '1.2.3.a', 'a.b.c.d', '1.2.3.4x', '0x1g.1.1.1',
-         '99999999999999999999', '1.99999999999999999999', '1.2.3.4\x00', '1e1.1.1.1', '1.2.3.４']
+         '99999999999999999999', '1.99999999999999999999', '1.2.3.4\x00', '1e1.1.1.1', '1.2.3.４',
+         # '/' behind whitespace: inet_aton stops at the blank (valid_ipv4 True), the constructor refuses the '/'
+         '1.2.3.4 /24', '1 /', '1.2.3.4\t/x', '0x7f.1 /', '1.2.3.4 /', '1.2.3.4\n/24', '1.2.3.4 1/2',
+         # ZEROFILL beyond four plain-digit parts: 1-3 parts, sign, whitespace, underscore, padding, negative
+         '010', '0010.1', '010.010.010', ' 0_10 .+2', '-0.0.0.0', '-1.2.3.4', '1.-2', '+1', '1_0', ' 1 . 2 ', '1.2.3.-0',
+         '+1.+2.+3.+4', '0x10.1.1.1', '00000000000000000255.1', '4294967295', '04294967296', '1.016777215',
+         '1.2.065536', '1.2.3.0256', '0_0.1', '1__0.1', '_1.2', '1_.2', '1. .3', '\t1\n.2', '1.2.3.4.5', '0.0.0.0.0',
+         '1.2.3.4.', '.1']
 NEAR6 = ['::', ':::', ':', '::1', '1::', '1::2', ':1', '1:', ':1::', '::1:', '1:::2', '1::2::3', '1:2:3:4:5:6:7:8',
          '1:2:3:4:5:6:7', '1:2:3:4:5:6:7:8:9', '1:2:3:4:5:6:7::', '::2:3:4:5:6:7:8', '1:2:3:4::5:6:7:8',
          '1::2:3:4:5:6:7:8', '1:2:3:4:5:6:7::8', '::1.2.3.4', '::ffff:1.2.3.4', '1:2:3:4:5:6:1.2.3.4',
@@ -545,11 +607,26 @@ def _valid_cases(s, tag):
     return out
 
 
+def _zf_cases(rng, s):
+    """ZEROFILL and INET_PTON|ZEROFILL on a text, constructor and valid_ipv4, a sample of (be, version)"""
+    out = []
+    for fl in (ZEROFILL, ZEROFILL | INET_PTON):
+        be = rng.choice(['pl', 'fb'])
+        ver = rng.choice([None, 4])
+        out.append(Case('ip_parse %s %s %s %d' % (be, hexs(s), optint(ver), fl), 'parse/%s/zf%d' % (be, fl),
+                        ('parse', be, s, ver, fl)))
+    be = rng.choice(['pl', 'fb'])
+    fl = rng.choice([ZEROFILL, ZEROFILL | INET_PTON])
+    out.append(Case('valid4 %s %s %d' % (be, hexs(s), fl), 'valid4/zf', ('valid4', be, s, fl)))
+    return out
+
+
 def _plat_cases(s):
     if not all(ord(c) < 128 for c in s):
         return []
     t = hexs(s)
-    return [Case('aton ' + t, 'platform/aton', ('aton', s), platform=True),
+    return [Case('zf_rewrite ' + t, 'platform/zf_rewrite', ('zf_rewrite', s), platform=True),
+            Case('aton ' + t, 'platform/aton', ('aton', s), platform=True),
             Case('pton4 ' + t, 'platform/pton4', ('pton4', s), platform=True),
             Case('pton6 ' + t, 'platform/pton6', ('pton6', s), platform=True)]
 
@@ -568,6 +645,13 @@ def corpus():
               '1:2:3:4:5:6:1.2.3.4', '00:0:0:0:0:ffff:1.2.3.4', '0x10.1.1.1', '٣::']:
         out += _parse_cases(s, tag='corpus')
         out += _fb_cases(s) + _valid_cases(s, 'corpus')
+    # valid_ipv4 vs constructor on a '/' behind whitespace; ZEROFILL on non-plain parts and 1-3 part forms
+    for s in ['1.2.3.4 /24', ' 0_10 .+2', '-0.0.0.0', '-1.2.3.4', '010', '0010.1']:
+        out += _parse_cases(s, flagset=(0, INET_PTON, ZEROFILL, ZEROFILL | INET_PTON), tag='corpus2')
+        out += _valid_cases(s, 'corpus2')
+    for be in ('pl', 'fb'):
+        for ver, v in ((4, 0), (4, 0xC0000201), (6, 0), (6, 1), (6, 0xffff01020304), (6, M6)):
+            out.append(Case('ip_repr %s %d %d' % (be, ver, v), 'repr/%s/%d' % (be, ver), ('repr', be, ver, v)))
     return out
 
 
@@ -591,7 +675,12 @@ def generate(rng, tier):
         cases.append(Case(None, 'rt/%s/6/%s' % (be, d), ('rt', be, 6, v, d, pver, fl)))
         if rng.random() < 0.5:
             strings.append(ref_print(6, v, rng.choice(['compact', 'compact', 'full', 'verbose'])))
+        if rng.random() < 0.3:
+            be = rng.choice(['pl', 'fb'])
+            cases.append(Case('ip_repr %s 6 %d' % (be, v), 'repr/%s/6' % be, ('repr', be, 6, v)))
     for v in v4s:
+        be = rng.choice(['pl', 'fb'])
+        cases.append(Case('ip_repr %s 4 %d' % (be, v), 'repr/%s/4' % be, ('repr', be, 4, v)))
         be = rng.choice(['pl', 'fb'])
         cases.append(Case('ip_print %s 4 %d -' % (be, v), 'print/%s/4' % be, ('print', be, 4, v, None)))
         cases.append(Case('fb_ntop 4 %d' % v, 'fb_ntop/4', ('fb_ntop', 4, v)))
@@ -616,6 +705,10 @@ def generate(rng, tier):
             strings.append(edits(rng, s, rng.choice([2, 3])))
     for _ in range(80 * mult):
         strings.append(''.join(rng.choice(ALPHA) for _ in range(rng.randrange(0, 9))))
+    zfs = [zf_string(rng) for _ in range(120 * mult)]
+    zfs += [edits(rng, z, 1) for z in rng.sample(zfs, len(zfs) // 3)]
+    strings += zfs
+    zfset = set(zfs)
     seen = set()
     for s in strings:
         if s in seen:
@@ -633,6 +726,8 @@ def generate(rng, tier):
             vc = _valid_cases(s, 'gen')
             if vc:
                 cases += rng.sample(vc, 2)
+        if (s in zfset or s in NEAR4) and all(ord(c) < 128 for c in s):
+            cases += _zf_cases(rng, s)
     return cases
 
 
@@ -652,6 +747,12 @@ def impl(c):
         try:
             return str(int.from_bytes(socket.inet_aton(a[1]), 'big'))
         except (OSError, ValueError):
+            return '!'
+    if op == 'zf_rewrite':
+        # the expression of strategy/ipv4.py:102 and :123, on CPython itself
+        try:
+            return hexs('.'.join(['%d' % int(i) for i in a[1].split('.')]))
+        except ValueError:
             return '!'
     if op == 'pton4':
         return _sock(socket.AF_INET, a[1])
@@ -693,6 +794,9 @@ def oracle(c, got):
             exp = '!' if v is None else str(v)
         elif op == 'ntop6':
             exp = hexs(ref_ntop6(a[1]))
+        elif op == 'zf_rewrite':
+            r = ref_zf_rewrite(a[1])
+            exp = '!' if r is None else hexs(r)
         else:
             return None
         return None if got == exp else 'platform %s gives %s, reference reading %s' % (op, got, exp)
@@ -741,6 +845,19 @@ def oracle(c, got):
             return 'IPAddress(%#x, %d) prints %r; ipaddress reads another value' % (v, ver, s)
         exp = ref_print(ver, v, d)
         return None if s == exp else 'IPAddress(%#x, %d) prints %r [%s, %s], expected %r' % (v, ver, s, be, d, exp)
+    if op == 'repr':
+        _, be, ver, v = a
+        toks = got.split(' ', 1)
+        r = _unhex(toks[0])
+        exp = "IPAddress('%s')" % ref_print(ver, v, None)
+        if r != exp:
+            return 'repr(IPAddress(%#x, %d)) [%s] -> %r, expected %r' % (v, ver, be, r, exp)
+        if toks[1] != '%d %d' % (ver, v):
+            return 'repr(IPAddress(%#x, %d)) = %r [%s]; its quoted part parses back to %s' % (v, ver, r, be, toks[1])
+        m = re.fullmatch(r"IPAddress\('(.*)'\)", r)
+        if not m or std_parse(m.group(1)) != (ver, v):
+            return 'repr(IPAddress(%#x, %d)) = %r; the standard parser does not read the value from the quoted part' % (v, ver, r)
+        return None
     if op == 'rt':
         _, be, ver, v, d, pver, fl = a
         toks = got.split(' ', 1)
@@ -765,6 +882,10 @@ def repro(c):
     if a[0] == 'rt':
         return pre + 's = IPAddress(%d, %d).format(%s); IPAddress(s, %r, flags=%d)' % (
             a[3], a[2], 'ipv6_' + a[4] if a[4] and a[2] == 6 else 'None', a[5], a[6]) + note
+    if a[0] == 'repr':
+        return pre + 'repr(IPAddress(%d, %d))' % (a[3], a[2]) + note
+    if a[0] == 'zf_rewrite':
+        return "'.'.join(['%%d' %% int(i) for i in %r.split('.')])" % (a[1],)
     if a[0] == 'valid4':
         return pre + 'valid_ipv4(%r, %d)' % (a[2], a[3]) + note
     if a[0] == 'valid6':
